@@ -84,24 +84,6 @@ fn run(rng: &mut Rng, _idx: u64, tier: Tier) -> CaseOut {
     }
 }
 
-pub fn discard(world: &crate::world::World, e: &str) -> CaseOut {
-    let mut out = CaseOut::new(format!("discard-{e}"));
-    if e.starts_with("PANIC") {
-        out.violate(&crate::libg::panic_signature(e), format!("panic while building the graph: {e}"), world.describe());
-    } else {
-        out.count("discarded_network");
-        out.inconclusive("network rejected by graph construction");
-    }
-    out
-}
-
-pub fn build(world: &crate::world::World, k: u16) -> Result<crate::libg::Sys, String> {
-    if world.valid_colours() == 0 && world.cs.exhaustive {
-        return Err("no valid colour (harness)".to_string());
-    }
-    crate::libg::guarded(|| crate::libg::build_sys(&world.net, k, &world.cs.bits)).map_err(|p| format!("PANIC {p}"))?
-}
-
 fn check(world: crate::world::World, sys: crate::libg::Sys, f: crate::form::F, rng: &mut Rng) -> CaseOut {
     let text = f.canon();
     let mut out = CaseOut::new(format!("{}|{}", world.net.to_aeon(), text));
